@@ -176,9 +176,13 @@ type Result struct {
 // <name>Buffered(ctx, *Req) any (the node replaces Head/SearchV2 handlers with those when it
 // registers the service), that one is called, as cmd/neofs-node does.
 func Invoke(srv any, iface reflect.Type, name string, reqs []any) (res Result, harnessErr error) {
+	return InvokeCtx(context.Background(), srv, iface, name, reqs)
+}
+
+// InvokeCtx is Invoke with the caller's context (e.g. one carrying an authenticated gRPC peer).
+func InvokeCtx(ctx context.Context, srv any, iface reflect.Type, name string, reqs []any) (res Result, harnessErr error) {
 	sig := SignatureOf(iface, name)
 	sv := reflect.ValueOf(srv)
-	ctx := context.Background()
 	defer func() {
 		if p := recover(); p != nil {
 			res.Panic = p
